@@ -24,6 +24,42 @@ from child import fill_byte, show_bytes
 NOT_INIT, NOT_IMPL, IN_USE, DENIED, BAD_HANDLE, BAD_ID = -1002, -1003, -1004, -1005, -1006, -1007
 BAD_PARAM, NOT_AVAIL, BAD_ADDR, TOO_SMALL, BAD_INDEX = -1009, -1014, -1015, -1016, -1017
 U64 = 1 << 64
+ISIZE_MAX = (1 << 63) - 1
+BAD_BUFFER = -1013
+PARAM_ERRS = {BAD_PARAM, BAD_BUFFER}     # what GenTL allows for an unusable pointer / size parameter
+_digest_cache = {}
+
+
+def shown(bs):
+    """show_bytes with a cache (whole-map read-backs repeat the same 10 KB images)"""
+    bs = bytes(bs)
+    if len(bs) <= 2048:
+        return show_bytes(bs)
+    r = _digest_cache.get(bs)
+    if r is None:
+        r = _digest_cache[bs] = show_bytes(bs)
+    return r
+
+
+def wdata(tok):
+    """write data token -> (size, bytes or None for a claimed size)"""
+    if tok.startswith("claim:"):
+        return int(tok[6:]), None
+    b = b"" if tok == "-" else bytes.fromhex(tok)
+    return len(b), b
+
+
+def port_sizes(k, t):
+    """sizes named by a read / write / stacked op"""
+    if k == "read":
+        return [int(t[3])]
+    if k == "write":
+        return [wdata(t[3])[0]]
+    if k == "reads":
+        return [int(t[4 + 2 * i]) for i in range(int(t[2]))]
+    if k == "writes":
+        return [wdata(t[4 + 2 * i])[0] for i in range(int(t[2]))]
+    return []
 
 # INFO_DATATYPE expected per command (GenTL 1.5 tables)
 STRING, INT32, UINT32, UINT64, BOOL8 = 1, 5, 6, 8, 11
@@ -46,11 +82,17 @@ def parse_result(res):
     code = int(t[0])
     fields, flags = {}, []
     for x in t[1:]:
-        if "=" in x:
+        if x.startswith("@"):
+            k, v = x[1:].split("=", 1)
+            fields["@" + k] = v
+        elif "=" in x:
             k, v = x.split("=", 1)
             fields[k] = v
         elif x in ("GUARD-BROKEN", "HANDLE-ANOMALY", "SOURCE-MODIFIED"):
             flags.append(x)
+        elif x.startswith("@"):
+            k, v = x[1:].split("=", 1)
+            fields["@" + k] = v
         else:
             fields["v"] = x       # scalar out-parameter ('-' = untouched)
     return code, fields, flags
@@ -141,13 +183,19 @@ class Oracle:
 
     def crash(self, op, res):
         t = op.split()
-        sig = {"oracle": "never_crash", "op": t[0], "outcome": res}
-        if t[0] in ("read", "write"):
+        sig = {"oracle": "never_crash", "outcome": res}
+        if t[0].startswith("np:"):
+            sig["null_parameter"] = t[0][3:]
+            t = t[1:]
+        sig["op"] = t[0]
+        sizes = port_sizes(t[0], t)
+        if any(n > ISIZE_MAX for n in sizes):
+            sig["size"] = "> isize::MAX"
+        elif t[0] in ("read", "write"):
             kind = self.slots.get(int(t[1]))
-            n = int(t[3]) if t[0] == "read" else (0 if t[3] == "-" else len(t[3]) // 2)
             if kind in ("sys", "if"):
                 sig["module"] = kind
-                sig["range"] = addr_class(int(t[2]), n, self.spec[kind].size)
+                sig["range"] = addr_class(int(t[2]), sizes[0], self.spec[kind].size)
         self.n_checks += 1
         self.violate(sig, "call `%s` crashed the process (%s)" % (op, res))
 
@@ -155,18 +203,35 @@ class Oracle:
     def step(self, op, res):
         self.cur_op = op
         t = op.split()
+        np = None
+        if t[0].startswith("np:"):
+            np = t[0][3:]
+            t = t[1:]
+        self.cur_t = t
         k = t[0]
         code, f, flags = parse_result(res)
         for fl in flags:
             self.require(False, {"oracle": "memory_safety", "op": k, "flag": fl}, "`%s`: %s" % (op, fl))
         kind = None
-        if k not in ("init", "closelib", "lasterr", "tlopen"):
+        if k not in ("init", "closelib", "lasterr", "tlopen", "gcinfo"):
             kind = self.slots.get(int(t[1]))  # None = NULL, 'sys', 'if', 'freed'
         # ---- not_initialized_outside
         if k != "init" and not self.lib:
             self.require(code == NOT_INIT, {"oracle": "not_initialized_outside", "op": k, "code": code},
                          "`%s` with the library not initialised returned %d, expected -1002" % (op, code))
             self.untouched(op, k, t, f)
+            self.fail(code)
+            return
+        # ---- a required pointer parameter is NULL / a size no buffer can have: refused, nothing written
+        if np is not None or any(n > ISIZE_MAX for n in port_sizes(k, t)):
+            what = "NULL `%s` parameter" % np if np is not None else "a size above isize::MAX"
+            self.require(code in PARAM_ERRS, {"oracle": "invalid_parameter", "op": k, "null_parameter": np, "code": code},
+                         "`%s` (%s) returned %d, expected -1009" % (op, what, code))
+            self.untouched(op, k, t, f)
+            self.fail(code)
+            return
+        if k == "gcinfo":
+            self.require(code == NOT_IMPL, {"oracle": "gcinfo", "code": code}, "GCGetInfo returned %d" % code)
             self.fail(code)
             return
         if k == "init":
@@ -218,7 +283,7 @@ class Oracle:
             return
         # ---- calls on a handle
         want = "port" if k in ("portinfo", "porturl", "numurls", "urlinfo", "read", "write", "reads", "writes") \
-            else "if" if k in ("ifclose", "ifinfo") else "sys"
+            else "if" if k in ("ifclose", "ifinfo", "ifnum", "ifupd", "ifparent", "ifdevid", "ifdevinfo", "ifopendev") else "sys"
         errs = set()
         if kind is None or (want != "port" and kind != want):
             errs.add(BAD_HANDLE)
@@ -235,10 +300,12 @@ class Oracle:
         if code != 0:
             self.last_fail = code
             # the INVALID_ID message embeds the id that was passed
-            t = self.cur_op.split()
+            t = self.cur_t
             self.last_fail_tag = None
             if code == BAD_ID and t[0] in ("tlopenif", "tlifinfo"):
                 self.last_fail_tag = t[2]
+            if code == BAD_ID and t[0] in ("ifdevinfo", "ifopendev"):
+                self.last_fail_tag = "dev-" + t[2]
 
     def untouched(self, op, k, t, f):
         """a call refused before its body ran must not have written any out-parameter"""
@@ -249,10 +316,25 @@ class Oracle:
             self.require(f["e"] == "-", sig, "`%s` was refused but wrote piErrorCode" % op)
         if "v" in f:
             self.require(f["v"] == "-", sig, "`%s` was refused but wrote its out-parameter" % op)
-        if "b" in f and k not in ("reads",):
-            c = contents_of(f["b"])
-            if c is not None:
-                self.require(c == pattern(len(c)), sig, "`%s` was refused but modified the buffer" % op)
+        if "b" in f:
+            for part in (f["b"].split(",") if k == "reads" else [f["b"]]):
+                c = contents_of(part)
+                if c is not None:
+                    self.require(c == pattern(len(c)), sig, "`%s` was refused but modified the buffer" % op)
+        if "n" in f:
+            want = None
+            if k == "read":
+                want = int(t[3])
+            elif k == "write":
+                want = wdata(t[3])[0]
+            elif k == "lasterr":
+                want = int(t[1][5:]) if t[1].startswith("null:") else int(t[1])
+            elif k not in ("reads", "writes"):
+                b = t[-1]
+                want = int(b[5:]) if b.startswith("null:") else int(b)
+            self.require(want is None or int(f["n"]) == want, sig, "`%s` was refused but wrote the size" % op)
+        if "k" in f:
+            self.require(int(f["k"]) == int(t[2]), sig, "`%s` was refused but wrote the entry count" % op)
 
     # ------------------------------------------------------------------ module state machine
     def op_tlclose(self, op, t, code, f, kind):
@@ -286,6 +368,29 @@ class Oracle:
         if code == 0:
             self.if_open = True
             self.slots[int(t[3])] = "if"
+
+    def op_ifnum(self, op, t, code, f, kind):
+        self.require(code == 0 and f.get("v") == "0", {"oracle": "ifnum", "code": code},
+                     "IFGetNumDevices returned %d, count %s (no device can be enumerated)" % (code, f.get("v")))
+
+    def op_ifupd(self, op, t, code, f, kind):
+        want = NOT_IMPL if self.if_open else NOT_INIT
+        self.require(code == want and f.get("v") == "-", {"oracle": "ifupd", "code": code, "want": want},
+                     "IFUpdateDeviceList returned %d (out %s), expected %d" % (code, f.get("v"), want))
+
+    def op_ifparent(self, op, t, code, f, kind):
+        self.require(code == 0 and f.get("@parent") == "ok", {"oracle": "ifparent", "code": code, "parent": f.get("@parent")},
+                     "IFGetParentTL returned %d, parent %s" % (code, f.get("@parent")))
+
+    def op_ifopendev(self, op, t, code, f, kind):
+        self.require(code == BAD_ID, {"oracle": "invalid_id", "op": "ifopendev", "code": code},
+                     "IFOpenDevice with an unknown device id returned %d, expected -1007" % code)
+
+    def op_ifdevid(self, op, t, code, f, kind):
+        self.buffer_protocol(op, ("ifdevid", int(t[2])), t[3], code, f, False, True, {BAD_INDEX})
+
+    def op_ifdevinfo(self, op, t, code, f, kind):
+        self.buffer_protocol(op, ("ifdevinfo", t[2], int(t[3])), t[4], code, f, True, True, {BAD_ID})
 
     def op_tlupd(self, op, t, code, f, kind):
         self.require(code == 0 and f.get("v") == "0", {"oracle": "tlupd", "code": code},
@@ -426,7 +531,7 @@ class Oracle:
             return False, {DENIED}
         return True, set()
 
-    def check_read(self, op, kind, addr, n, code, n_out, shown):
+    def check_read(self, op, kind, addr, n, code, n_out, got):
         sp = self.spec[kind]
         sig = {"oracle": "port_exact_or_error", "op": "read", "module": kind, "range": addr_class(addr, n, sp.size)}
         must, errs = self.expected_read(kind, addr, n)
@@ -434,16 +539,16 @@ class Oracle:
             self.require(must is not False, dict(sig, what="read succeeded where it must fail", want=sorted(errs)),
                          "`%s` returned 0, expected %s" % (op, sorted(errs)))
             self.require(n_out == n, dict(sig, what="size"), "`%s` reported %d bytes" % (op, n_out))
-            if addr + n <= sp.size and shown != "claimed":
+            if addr + n <= sp.size and got != "claimed":
                 exp = bytes(self.img[kind][addr:addr + n])
-                self.require(shown == show_bytes(exp), dict(sig, what="bytes differ from the map"),
-                             "`%s` returned %s, the map holds %s" % (op, shown[:80], show_bytes(exp)[:80]))
+                self.require(got == shown(exp), dict(sig, what="bytes differ from the map"),
+                             "`%s` returned %s, the map holds %s" % (op, got[:80], shown(exp)[:80]))
         else:
             self.require(must is not True and code in errs, dict(sig, what="error code", code=code, want=sorted(errs)),
                          "`%s` returned %d, expected %s" % (op, code, "0" if must else sorted(errs)))
             self.require(n_out == n, dict(sig, what="size modified on error"), "`%s` failed but wrote the size" % op)
-            if shown != "claimed":
-                self.require(shown == show_bytes(pattern(n)), dict(sig, what="buffer modified on error"),
+            if got != "claimed":
+                self.require(got == show_bytes(pattern(n)), dict(sig, what="buffer modified on error"),
                              "`%s` failed with %d but modified the buffer" % (op, code))
 
     def op_read(self, op, t, code, f, kind):
@@ -463,10 +568,9 @@ class Oracle:
             return False, {DENIED}
         return True, set()
 
-    def check_write(self, op, kind, addr, data, code):
-        """returns True when the bytes were transferred"""
+    def check_write(self, op, kind, addr, n, data, code):
+        """returns True when the bytes were transferred (`data` is None for a claimed size)"""
         sp = self.spec[kind]
-        n = len(data)
         sig = {"oracle": "port_exact_or_error", "op": "write", "module": kind, "range": addr_class(addr, n, sp.size)}
         must, errs = self.expected_write(kind, addr, n)
         # A write that was transferred may still report the failure of the action it triggered
@@ -475,7 +579,7 @@ class Oracle:
         if transferred:
             self.require(must is not False, dict(sig, what="write accepted where it must fail", code=code, want=sorted(errs)),
                          "`%s` returned %d, expected %s" % (op, code, sorted(errs)))
-            if addr + n <= sp.size:
+            if addr + n <= sp.size and data is not None:
                 self.img[kind][addr:addr + n] = data
         else:
             self.require(must is not True and code in errs, dict(sig, what="error code", code=code, want=sorted(errs)),
@@ -483,29 +587,29 @@ class Oracle:
         return transferred
 
     def op_write(self, op, t, code, f, kind):
-        data = b"" if t[3] == "-" else bytes.fromhex(t[3])
-        self.check_write(op, kind, int(t[2]), data, code)
-        self.require(int(f["n"]) == len(data), {"oracle": "port_exact_or_error", "op": "write", "what": "size"},
+        n, data = wdata(t[3])
+        self.check_write(op, kind, int(t[2]), n, data, code)
+        self.require(int(f["n"]) == n, {"oracle": "port_exact_or_error", "op": "write", "what": "size"},
                      "`%s` reported size %s" % (op, f["n"]))
 
     def op_reads(self, op, t, code, f, kind):
         cnt = int(t[2])
         k_out = int(f["k"])
-        shown = f["b"].split(",") if cnt > 0 else []
+        got = f["b"].split(",") if cnt > 0 else []
         sig = {"oracle": "port_exact_or_error", "op": "reads", "module": kind}
         self.require(k_out <= cnt and (code != 0 or k_out == cnt), dict(sig, what="count"),
                      "`%s` -> code %d count %d" % (op, code, k_out))
         for i in range(cnt):
             addr, n = int(t[3 + 2 * i]), int(t[4 + 2 * i])
             if i < k_out:
-                self.check_read(op + " [entry %d]" % i, kind, addr, n, 0, n, shown[i])
+                self.check_read(op + " [entry %d]" % i, kind, addr, n, 0, n, got[i])
             elif i == k_out:
                 must, errs = self.expected_read(kind, addr, n)
                 self.require(must is not True and code in errs, dict(sig, what="failing entry code", code=code),
                              "`%s` failed at entry %d with %d, expected %s" % (op, i, code, sorted(errs)))
-                self.require(shown[i] == show_bytes(pattern(n)), dict(sig, what="failing entry buffer modified"), op)
+                self.require(got[i] == "claimed" or got[i] == show_bytes(pattern(n)), dict(sig, what="failing entry buffer modified"), op)
             else:
-                self.require(shown[i] == show_bytes(pattern(n)), dict(sig, what="entry after the failing one modified"), op)
+                self.require(got[i] == "claimed" or got[i] == show_bytes(pattern(n)), dict(sig, what="entry after the failing one modified"), op)
 
     def op_writes(self, op, t, code, f, kind):
         cnt = int(t[2])
@@ -515,5 +619,5 @@ class Oracle:
                      "`%s` -> code %d count %d" % (op, code, k_out))
         for i in range(min(cnt, k_out + 1)):
             addr = int(t[3 + 2 * i])
-            data = b"" if t[4 + 2 * i] == "-" else bytes.fromhex(t[4 + 2 * i])
-            self.check_write(op + " [entry %d]" % i, kind, addr, data, 0 if i < k_out else code)
+            n, data = wdata(t[4 + 2 * i])
+            self.check_write(op + " [entry %d]" % i, kind, addr, n, data, 0 if i < k_out else code)
